@@ -131,9 +131,10 @@ def _parse_xml_string(xml_string, parser, charset=None):
 
 # see http://www.w3.org/TR/2000/NOTE-SOAP-20000508/
 # section 5.2.1 for an example of how the id and href attributes are used.
-def resolve_hrefs(element, xmlids, _pending=None):
-    if _pending is None:
-        _pending = set()
+def resolve_hrefs(element, xmlids, _pending=frozenset()):
+    # the elements we are inside of: the ancestors of the current one and the
+    # targets of the hrefs being followed
+    _pending = _pending | {id(element)}
 
     for e in element:
         if e.get('id'):
@@ -151,9 +152,7 @@ def resolve_hrefs(element, xmlids, _pending=None):
                 raise Fault('Client.SoapError', "The href %r is circular"
                                                           % (e.get('href'),))
 
-            _pending.add(id(resolved_element))
             resolve_hrefs(resolved_element, xmlids, _pending)
-            _pending.discard(id(resolved_element))
 
             # copies the attributes
             [e.set(k, v) for k, v in resolved_element.items()]
@@ -165,7 +164,7 @@ def resolve_hrefs(element, xmlids, _pending=None):
             e.text = resolved_element.text
 
         else:
-            resolve_hrefs(e, xmlids)
+            resolve_hrefs(e, xmlids, _pending)
 
     return element
 
